@@ -15,6 +15,14 @@ def ensure_deps():
     if glob.glob(os.path.join(DEPS, 'librust_decimal-*.rlib')):
         return
     os.makedirs(os.path.join(DEPSRC, 'src'), exist_ok=True)
+    import fcntl
+    with open(os.path.join(BUILD, '.deps.lock'), 'w') as lk:      # concurrent checks on a fresh tree: one builds, the others wait
+        fcntl.flock(lk, fcntl.LOCK_EX)
+        if glob.glob(os.path.join(DEPS, 'librust_decimal-*.rlib')):
+            return
+        _build_deps()
+
+def _build_deps():
     open(os.path.join(DEPSRC, 'Cargo.toml'), 'w').write(
         '[package]\nname = "vxdeps"\nversion = "0.0.0"\nedition = "2021"\n[dependencies]\nrust_decimal = "1.31.0"\n[workspace]\n')
     open(os.path.join(DEPSRC, 'src', 'lib.rs'), 'w').write('')
